@@ -6,14 +6,7 @@ RULES = ['regSet.installed', 'regSet.inline', 'fire', 'retire', 'loadFlag.notdon
          'crash', 'obs.out', 'obs.invalid']
 NOT_EXHIBITABLE = ['loadFlag.stale', 'dtorThrow']
 
-# D2: AllTuple<FirstFail>::Consume calls .Value() on a second failing input => bad_variant_access in noexcept => terminate
-KNOWN = [{
-    'match': r'kind=alltuple policy=firstfail .*pattern=(?:[VEX],)*[EX],(?:[VEX],)*[EX] .*\| crash: std::terminate \(std::get: wrong index for variant',
-    'what': 'D2: WhenAll<FirstFail> in the tuple form (inputs of different value types, e.g. WhenAll(Future<int>, Future<double>)) '
-            'with two failing inputs: AllTuple<FirstFail>::Consume runs result.Value() on the second failure after the first one '
-            'took the done flag => std::bad_variant_access escapes a noexcept function => std::terminate '
-            '(model: Props/C09.lean no_crash_violated_witness)',
-}]
+# the open finding D2 is listed in /verif/known_findings.json (property C09)
 
 
 def run(res, tier):
@@ -31,7 +24,7 @@ def run(res, tier):
         thorough_args=['--family', 'all', '--mode', 'dfs', '--pb', '3', '--pb3', '3', '--wb', '2', '--max-exec', '3000000'],
         search_args=[['--family', 'all', '--mode', 'dfs', '--pb', '3', '--pb3', '2', '--wb', '1', '--max-exec', '400000'],
                      ['--family', 'all', '--mode', 'random', '--random-runs', '3000']],
-        known=KNOWN, unmodelled_ok=NOT_EXHIBITABLE)
+        unmodelled_ok=NOT_EXHIBITABLE)
 
 
 def replay(path):
